@@ -171,6 +171,13 @@ def model_getters(items):
     return out
 
 
+TAG_HAND = [
+    'pair = { x ~ "=" ~ #value = x }\nlist = { x ~ ("," ~ #more = x)* ~ ";" ~ y }\nahead = { &(#peeked = (x ~ y)) ~ x ~ y }\n'
+    'opt = { (#first = x ~ ":")? ~ x }\nx = { "a" | "b" | "c" }\ny = { "1" }',
+    'r = { #a = (x ~ y) ~ (#b = x | #c = (y ~ x))* ~ #d = x? }\nx = { "a" }\ny = { "b" }',
+]
+
+
 def corpus_texts(seed, n_random):
     rng = Rng(seed).fork("v1g")
     texts = list(BIASED_HAND) + list(grammar.HAND) + grammar.repo_grammars() + [gencore.nesting_grammar(True, True, 2)]
@@ -196,9 +203,12 @@ def v1g(ctx, n_random):
     gendump.build()
     texts = corpus_texts(ctx.seed, n_random)
     ngr = nget = bad = excl = 0
-    for oi, opts in enumerate(({"emit_rule_reference": "true"}, {"emit_rule_reference": "true", "box_only_if_needed": "true"})):
+    passes = [({"emit_rule_reference": "true"}, texts, None), ({"emit_rule_reference": "true", "box_only_if_needed": "true"}, texts, None),
+              # node tags (cargo feature grammar-extras): with emit_tagged_node_reference off a tag is transparent for the rule accessors
+              ({"emit_rule_reference": "true"}, TAG_HAND, "grammar-extras")]
+    for oi, (opts, texts, feat) in enumerate(passes):
         gs = [("w%d_%d" % (oi, i), t, opts) for i, t in enumerate(texts)]
-        res = gendump.dump(gs)
+        res = gendump.dump(gs, features=feat)
         valid = [(gid, res[gid]) for gid, _, _ in gs if res[gid].meta_ok and res[gid].gen_ok]
         mg = model_getters(valid)
         for gid, r in valid:
